@@ -29,6 +29,16 @@ pub fn collection_sizes(v: &RValue, out: &mut Vec<usize>) {
 	}
 }
 
+/// Number of map nodes in a value.
+pub fn count_maps(v: &RValue) -> usize {
+	match v {
+		RValue::Map(items) => 1 + items.iter().map(|(_, i)| count_maps(i)).sum::<usize>(),
+		RValue::Array(items) | RValue::Record(items) => items.iter().map(count_maps).sum(),
+		RValue::Union(_, inner) => count_maps(inner),
+		_ => 0,
+	}
+}
+
 pub fn count_collections(v: &RValue) -> usize {
 	let mut s = Vec::new();
 	collection_sizes(v, &mut s);
@@ -299,13 +309,13 @@ pub enum PointKind {
 	/// one boolean byte
 	Bool,
 	/// content of a string / uuid / map key: `len` bytes at `off`
-	StrContent,
+	StrContent { key: bool },
 	/// union branch index (varint); `n` = number of branches
 	UnionIdx(usize),
 	/// enum symbol index (varint); `n` = number of symbols
 	EnumIdx(usize),
 	/// length prefix of bytes / string / map key (varint)
-	Len,
+	Len { key: bool },
 	/// block count of an array/map (varint), incl. the terminating 0; minimal encoded size of one item
 	BlockCount { min_item: usize },
 }
@@ -393,15 +403,15 @@ impl<'a> T<'a> {
 		self.bounds.push(self.i);
 		Some(s)
 	}
-	fn len_prefixed(&mut self, content_is_text: bool) -> Option<()> {
+	fn len_prefixed(&mut self, content_is_text: bool, key: bool) -> Option<()> {
 		let (l, off, len) = self.varint()?;
-		self.out.push(Point { kind: PointKind::Len, off, len });
+		self.out.push(Point { kind: PointKind::Len { key }, off, len });
 		if l < 0 {
 			return None;
 		}
 		let s = self.take(l as usize)?;
 		if content_is_text {
-			self.out.push(Point { kind: PointKind::StrContent, off: s, len: l as usize });
+			self.out.push(Point { kind: PointKind::StrContent { key }, off: s, len: l as usize });
 		}
 		Some(())
 	}
@@ -424,8 +434,8 @@ impl<'a> T<'a> {
 			S::Double => {
 				self.take(8)?;
 			}
-			S::Bytes => self.len_prefixed(false)?,
-			S::String => self.len_prefixed(true)?,
+			S::Bytes => self.len_prefixed(false, false)?,
+			S::String => self.len_prefixed(true, false)?,
 			S::Fixed { size, .. } => {
 				self.take(*size)?;
 			}
@@ -461,7 +471,7 @@ impl<'a> T<'a> {
 					let start = self.i;
 					for _ in 0..c.unsigned_abs() {
 						if is_map {
-							self.len_prefixed(true)?;
+							self.len_prefixed(true, true)?;
 						}
 						self.walk(item)?;
 					}
